@@ -29,7 +29,7 @@ FLOORS = {
 }
 BUDGET = {
     'quick': {'typed_exprs': 10000, 'props': 6000, 'specs': 600, 'untyped': 5000, 'fusion': 2500},
-    'thorough': {'typed_exprs': 120000, 'props': 60000, 'specs': 8000, 'untyped': 50000, 'fusion': 30000},
+    'thorough': {'typed_exprs': 300000, 'props': 160000, 'specs': 20000, 'untyped': 120000, 'fusion': 60000},
 }
 TIMEOUT = {'quick': 600, 'thorough': 5400}
 
